@@ -11,6 +11,8 @@
   threshold sweeps.
 -/
 import ZlProofs.Props.C17
+import ZlProofs.Lemmas.Names
+import ZlModel.Names
 import ZlModel.Generated.Registry
 namespace Zl.C20
 open Zl Generated
@@ -78,5 +80,78 @@ theorem mirror_status_sets_agree :
 /-- non-vacuity -/
 example : scan (fun (n : Nat) => if n == 0 then some Status.error else none) Status.pass [1, 0, 2]
     = scan (fun (s : String) => if s == "0" then some Status.error else none) Status.pass ([1, 0, 2].map toString) := by decide
+
+
+/-! ## Modelled pairs: per-element agreement *proved*, not searched
+
+  For the four pairs below both rule bodies are modelled (ZlModel/Names.lean, tied to the real lints by the
+  `names` correspondence), so their agreement is a theorem instead of a search result. -/
+section ModelledPairs
+open Zl.Names
+
+/-- RFC / CABF "label too long": on the same content — a subject CN that is empty, an IP address, or one of
+    the SAN names — the two copies return the same status, for **every** name list. -/
+theorem label_pair_agree (v : View) (h : v.cn = [] ∨ v.cnIsIP = true ∨ v.cn ∈ v.dns) :
+    brLabelTooLong v = rfcLabelTooLong v := by
+  unfold brLabelTooLong rfcLabelTooLong cnJudged
+  rcases h with h | h | h
+  · simp [h]
+  · simp [h]
+  · by_cases hl : labelTooLong v.cn = true
+    · have : v.dns.any labelTooLong = true := List.any_eq_true.mpr ⟨v.cn, h, hl⟩
+      simp [anyFinding, this]
+    · simp [hl]
+
+/-- …and whatever the CN is, the CABF copy is at least as strict as the RFC copy (the extra requirement on the
+    CN can add a finding, never remove one) -/
+theorem label_pair_implies (v : View) (h : rfcLabelTooLong v = Status.error) : brLabelTooLong v = Status.error := by
+  unfold brLabelTooLong
+  split
+  · rfl
+  · exact h
+
+theorem empty_label_pair_agree (v : View) (h : v.cn = [] ∨ v.cnIsIP = true ∨ v.cn ∈ v.dns) :
+    brEmptyLabel v = rfcEmptyLabel v := by
+  unfold brEmptyLabel rfcEmptyLabel cnJudged
+  rcases h with h | h | h
+  · simp [h]
+  · simp [h]
+  · by_cases hl : hasEmptyLabel v.cn = true
+    · have : v.dns.any hasEmptyLabel = true := List.any_eq_true.mpr ⟨v.cn, h, hl⟩
+      simp [anyFinding, this]
+    · simp [hl]
+
+theorem empty_label_pair_implies (v : View) (h : rfcEmptyLabel v = Status.error) : brEmptyLabel v = Status.error := by
+  unfold brEmptyLabel
+  split
+  · rfl
+  · exact h
+
+/-- SAN / IAN: the same names in both extensions give the same verdicts -/
+theorem space_pair_agree (v : View) (h : v.ianDns = v.dns) : ianSpaceDNS v = sanSpaceDNS v := by
+  unfold ianSpaceDNS sanSpaceDNS; rw [h]
+
+theorem uri_ia5_pair_agree (v : View) (h : v.ianUris = v.uris) : ianUriNotIA5 v = sanUriNotIA5 v := by
+  unfold ianUriNotIA5 sanUriNotIA5; rw [h]
+
+/-- what "label too long" means: some dot-free stretch between dots (or the ends) exceeds 63 octets; the labels
+    are exactly the pieces that join back to the name -/
+theorem labelTooLong_iff (d : Bytes) :
+    labelTooLong d = true ↔ ∃ l ∈ splitDot d, 63 < l.length ∧ 46 ∉ l := by
+  unfold labelTooLong
+  simp only [List.any_eq_true, decide_eq_true_eq]
+  constructor
+  · rintro ⟨l, hl, hlen⟩; exact ⟨l, hl, hlen, splitDot_no_dot d l hl⟩
+  · rintro ⟨l, hl, hlen, _⟩; exact ⟨l, hl, hlen⟩
+
+theorem labels_rejoin (d : Bytes) : joinDot (splitDot d) = d := joinDot_splitDot d
+
+/-- boundary: 63 octets pass, 64 do not — whatever the octets are (ASCII or not) -/
+example : labelTooLong (List.replicate 63 97 ++ [46, 99]) = false := by decide
+example : labelTooLong (List.replicate 64 97 ++ [46, 99]) = true := by decide
+example : labelTooLong (List.replicate 32 195 ++ List.replicate 32 169) = true := by decide
+example : hasEmptyLabel [97, 46, 46, 98] = true ∧ hasEmptyLabel [97, 46, 98] = false ∧ hasEmptyLabel [] = true := by decide
+
+end ModelledPairs
 
 end Zl.C20
